@@ -74,11 +74,13 @@ class TooBig(Exception):
 
 
 class Instantiator(object):
-    def __init__(self, cap=3000, budget=6000, seconds=8.0):
+    def __init__(self, cap=3000, budget=6000, seconds=12.0):
         import time as _t
         self.cap = cap
         self.budget = budget
-        self.deadline = _t.time() + seconds
+        # CPU time of this process, not wall time: the verdict must not
+        # depend on how busy the machine is
+        self.deadline = _t.process_time() + seconds
         self.ground = {}        # (dkey, argpos) -> {term id: term}
         self.by_sort = {}
         self.count = 0
@@ -145,7 +147,7 @@ class Instantiator(object):
             import time as _t
             for combo in combos:
                 self.count += 1
-                if self.count > self.budget or _t.time() > self.deadline:
+                if self.count > self.budget or _t.process_time() > self.deadline:
                     raise TooBig()
                 inst = z3.substitute_vars(body, *reversed(combo))
                 insts.append(self.instantiate(inst, depth + 1))
